@@ -355,11 +355,20 @@ def replay_proposed(ctx):
     ctx.cov["predicate"]["uper_deviation_witnesses"] = res
     return res
 
+def _set_to_sequence(t):
+    """asn1c has no PER codec for SET (F32): the UPER leg runs the generated modules with every SET turned into a
+    SEQUENCE (same components, same value representation) instead of skipping every type that contains a SET"""
+    t = dict(t)
+    if t["k"] == "SET": t["k"] = "SEQUENCE"
+    if "comps" in t: t["comps"] = [dict(c, type=_set_to_sequence(c["type"])) for c in t["comps"]]
+    if "elem" in t: t["elem"] = _set_to_sequence(t["elem"])
+    return t
+
 # ------------------------------------------------------------------------------------------------ run
 def run_uper(ctx, nb=None, nvals=None):
     nb = nb if nb is not None else (6 if ctx.quick else 40)
     nvals = nvals if nvals is not None else (8 if ctx.quick else 25)
-    mods = c01.gen_bundles(ctx, nb)
+    mods = [dict(m, types=[(n, _set_to_sequence(t)) for n, t in m["types"]]) for m in c01.gen_bundles(ctx, nb)]
     bm, bvals = genmod.boundary_module(ctx.rng, ctx.quick)
     fm, fvals = fixed_module(ctx.rng, ctx.quick)
     cases = [(fm, fvals), (bm, bvals)]
